@@ -102,4 +102,4 @@ def run(tier, seed, replay=None):
         "every input verdict vector at every turn position (<=3 input rails, 3 turns), other turns seeded-random; thorough adds "
         "<=4 rails, 4-5 turns, salted texts. non-trivial = >=2 rails, >=2 turns and at least one reject/rewrite verdict; "
         "distinct by hash of the case",
-        D.COMMON_ASSUMPTIONS, D.OBSERVATIONS)
+        D.COMMON_ASSUMPTIONS, D.OBSERVATIONS, library=True)
